@@ -408,6 +408,18 @@ impl<'a> ShapeCtx<'a> {
         Ok(())
     }
 
+    /// a field of a generated composite: `#[codec(compact)] f: X` stands for `Compact<X>`
+    pub fn bisim_field(&mut self, rid: u32, ty: &syn::Type, compact: bool, at: &str) -> Result<(), String> {
+        self.bisim_child(
+            rid,
+            &GChild {
+                ty: ty.clone(),
+                compact,
+            },
+            at,
+        )
+    }
+
     fn bisim_child(&mut self, rid: u32, gc: &GChild, at: &str) -> Result<(), String> {
         if gc.compact {
             // #[codec(compact)] f: X  <->  registry Compact(X)
